@@ -14,7 +14,7 @@ from .pag import PAG
 class AugmentedNodeMixin:
     graph: dict
     nodes: NodeView
-    domains: Set[int] = set()
+    domains: Set[int]
 
     @abstractmethod
     def add_edge(self, u_of_edge, v_of_edge, edge_type="all", **attr):
@@ -271,6 +271,7 @@ class AugmentedGraph(ADMG, AugmentedNodeMixin):
 
         # verify validity of F nodes
         self._verify_augmentednode_dict()
+        self.domains = set()
 
     def remove_node(self, n):
         if n in self.f_nodes:
@@ -291,6 +292,7 @@ class AugmentedGraph(ADMG, AugmentedNodeMixin):
         # the registries are containers: the copy must own its own, not alias the original's
         G.graph["F-nodes"] = deepcopy(self.graph["F-nodes"])
         G.graph["S-nodes"] = deepcopy(self.graph["S-nodes"])
+        G.domains = set(self.domains)
         return G
 
 
@@ -393,6 +395,7 @@ class AugmentedPAG(PAG, AugmentedNodeMixin):
         )
 
         self._verify_augmentednode_dict()
+        self.domains = set()
 
     def remove_node(self, n):
         if n in self.f_nodes:
@@ -413,4 +416,5 @@ class AugmentedPAG(PAG, AugmentedNodeMixin):
         # the registries are containers: the copy must own its own, not alias the original's
         G.graph["F-nodes"] = deepcopy(self.graph["F-nodes"])
         G.graph["S-nodes"] = deepcopy(self.graph["S-nodes"])
+        G.domains = set(self.domains)
         return G
